@@ -1,0 +1,147 @@
+//go:build verif
+
+// Verification hooks (build tag "verif"). Add-only: thin exported wrappers around
+// unexported functions and constants, used by the external verification harness.
+
+package cipher
+
+import (
+	"time"
+)
+
+// VerifConsts exports the constants of the key schedule and of the cipher cache.
+func VerifConsts() map[string]int64 {
+	return map[string]int64{
+		"keyIter":                   KeyIter,
+		"keyRefreshIntervalNs":      int64(KeyRefreshInterval),
+		"cacheValidIntervalNs":      int64(cacheValidInterval),
+		"cacheValidMaxJitterMs":     cacheValidMaxJitterMs,
+		"noncePrefixLenForUserHint": NoncePrefixLenForUserHint,
+		"nonceSuffixLenForUserHint": NonceSuffixLenForUserHint,
+	}
+}
+
+func VerifSaltFromTime(t time.Time) [][]byte { return saltFromTime(t) }
+
+func VerifCipherKeyEpoch(t time.Time) int64 { return cipherKeyEpoch(t) }
+
+// VerifCacheEntry is a plain view of a cachedCiphers entry. ID identifies the entry
+// (pointer identity), so that the caller can tell a cached entry from a fresh one.
+type VerifCacheEntry struct {
+	Epoch      int64
+	CreateTime time.Time
+	Keys       [][]byte
+	ID         interface{}
+}
+
+func verifEntry(e *cachedCiphers) VerifCacheEntry {
+	v := VerifCacheEntry{Epoch: e.epoch, CreateTime: e.createTime, ID: e}
+	for _, c := range e.cipherList {
+		k := make([]byte, len(c.key))
+		copy(k, c.key[:])
+		v.Keys = append(v.Keys, k)
+	}
+	return v
+}
+
+// VerifKeysAt returns the three keys newBlockCipherList derives for the instant.
+func VerifKeysAt(password []byte, now time.Time) ([][]byte, error) {
+	blocks, err := newBlockCipherList(password, now)
+	if err != nil {
+		return nil, err
+	}
+	var keys [][]byte
+	for _, c := range blocks {
+		k := make([]byte, len(c.key))
+		copy(k, c.key[:])
+		keys = append(keys, k)
+	}
+	return keys, nil
+}
+
+// VerifBlockCipherListAt returns clones of the three ciphers derived for the instant.
+func VerifBlockCipherListAt(password []byte, now time.Time, stateless bool) ([]BlockCipher, error) {
+	blocks, err := newBlockCipherList(password, now)
+	if err != nil {
+		return nil, err
+	}
+	res := make([]BlockCipher, len(blocks))
+	for i, c := range blocks {
+		res[i] = c.CloneStatelessFast()
+		if !stateless {
+			res[i].SetImplicitNonceMode(true)
+		}
+	}
+	return res, nil
+}
+
+func VerifNewXChaCha20Poly1305(key []byte) (BlockCipher, error) {
+	return newXChaCha20Poly1305BlockCipher(key)
+}
+
+// VerifKeyOf returns the key of a block cipher created by this package.
+func VerifKeyOf(b BlockCipher) []byte {
+	c, ok := b.(*aeadBlockCipher)
+	if !ok {
+		return nil
+	}
+	k := make([]byte, len(c.key))
+	copy(k, c.key[:])
+	return k
+}
+
+// VerifImplicitNonce returns a copy of the current implicit nonce of a stateful cipher.
+func VerifImplicitNonce(b BlockCipher) []byte {
+	c, ok := b.(*aeadBlockCipher)
+	if !ok {
+		return nil
+	}
+	c.mu.Lock()
+	defer c.mu.Unlock()
+	n := make([]byte, len(c.implicitNonce))
+	copy(n, c.implicitNonce)
+	return n
+}
+
+func VerifGetCachedCiphers(password string, now time.Time) (VerifCacheEntry, error) {
+	e, err := getCachedCiphers(password, now)
+	if err != nil {
+		return VerifCacheEntry{}, err
+	}
+	return verifEntry(e), nil
+}
+
+// VerifResetCipherCache empties the process-wide cipher cache.
+func VerifResetCipherCache() {
+	blockCipherCache.Range(func(k, _ interface{}) bool {
+		blockCipherCache.Delete(k)
+		return true
+	})
+}
+
+// VerifTryDecryptAt runs tryDecryptAt with the given clock reading and also reports the entry the
+// decryptor holds afterwards.
+func (d *StatelessDecryptor) VerifTryDecryptAt(ciphertext []byte, now time.Time) (key []byte, plaintext []byte, held *VerifCacheEntry, err error) {
+	block, plaintext, err := d.tryDecryptAt(ciphertext, nil, now)
+	if e := d.ciphers.Load(); e != nil {
+		v := verifEntry(e)
+		held = &v
+	}
+	if err != nil {
+		return nil, nil, held, err
+	}
+	return VerifKeyOf(block), plaintext, held, nil
+}
+
+// VerifIncreaseNonce applies increaseNonce to a copy of the nonce.
+func VerifIncreaseNonce(nonce []byte) []byte {
+	c := &aeadBlockCipher{enableImplicitNonce: true, implicitNonce: append([]byte(nil), nonce...)}
+	c.increaseNonce()
+	return c.implicitNonce
+}
+
+// VerifAddUserHint applies addUserHintToNonce to a copy of the nonce.
+func VerifAddUserHint(user string, nonce []byte) []byte {
+	c := &aeadBlockCipher{ctx: BlockContext{UserName: user}}
+	return c.addUserHintToNonce(append([]byte(nil), nonce...))
+}
